@@ -24,6 +24,12 @@ Round 4
 * `C09_body_untagged` — `BindBody` called on its own.
 * `C09_map_precedence` — map destinations: per key, the last source that carries the key wins, every
   other entry survives (`mapGet_mapInsert`, `mapBind_get`).
+
+Round 8
+* `foldEq_exact_off_letters`, `C09_key_differs_in_letter_case_only`, `C09_separator_variant_misses` — a key that
+  reaches a tag has the tag's length and agrees with it at every non-letter byte: `X_Is_Admin` is not `X-Is-Admin`.
+* `C09_xml_types_agree` — `text/xml` and `application/xml` (any parameters / padding) are one branch.
+* `C09_decoded_malformed_400` — a body the selected decoder rejects is a 400 through `BindBody` and `Bind`.
 -/
 namespace C09
 open C08 (Elem SVal FVal structElem structElems zeroOf parseElem multiParse)
@@ -1385,5 +1391,170 @@ example : flatD (bind (.struct exFs) (.struct exVs)
     = flatVs [.leaf (.one (.int 0)), .leaf (.one (.bool false)), .struct [.leaf (.one (.opq []))], .leaf .nil] := by
   decide +kernel
 example : lookup [(['i','d'], [[]])] ['i','d'] = some [[]] := by decide
+
+
+/-! ## round 8: the only freedom a key has is letter case; every decoder media type maps a rejected
+    document to 400 -/
+
+/-- ASCII letter -/
+def isLetter (c : Char) : Bool := (65 ≤ c.toNat && c.toNat ≤ 90) || (97 ≤ c.toNat && c.toNat ≤ 122)
+
+theorem lowerC_eq_of_not_letter (a b : Char) (hb : isLetter b = false) (h : lowerC a = lowerC b) : a = b := by
+  have hb' : lowerC b = b := by
+    unfold lowerC
+    split
+    · rename_i hu; simp [isLetter] at hb; omega
+    · rfl
+  rw [hb'] at h
+  unfold lowerC at h
+  split at h
+  · rename_i hu
+    exfalso
+    have hv : (a.toNat + 32).isValidChar := by
+      unfold Nat.isValidChar; omega
+    have : b.toNat = a.toNat + 32 := by
+      rw [← h, Char.ofNat, dif_pos hv]; rfl
+    simp [isLetter] at hb
+    omega
+  · exact h
+
+theorem foldEq_cons (a b : Char) (as bs : List Char) :
+    foldEq (a :: as) (b :: bs) = true ↔ lowerC a = lowerC b ∧ foldEq as bs = true := by
+  simp [foldEq]
+
+/-- **fold-equal strings differ in letter case only**: same length, and wherever the tag has a byte
+    that is not a letter — `-`, `_`, `.`, a blank, a digit, a bracket — the key has the very same byte -/
+theorem foldEq_exact_off_letters : ∀ (k t : List Char), foldEq k t = true →
+    k.length = t.length ∧ ∀ (i : Nat) (c : Char), t[i]? = some c → isLetter c = false → k[i]? = some c
+  | [], [] => by intro _; simp
+  | [], _ :: _ => by intro h; simp [foldEq] at h
+  | _ :: _, [] => by intro h; simp [foldEq] at h
+  | a :: as, b :: bs => by
+    intro h
+    obtain ⟨h1, h2⟩ := (foldEq_cons a b as bs).1 h
+    obtain ⟨il, ie⟩ := foldEq_exact_off_letters as bs h2
+    refine ⟨by simp [il], ?_⟩
+    intro i c hc hl
+    cases i with
+    | zero =>
+      simp only [List.getElem?_cons_zero, Option.some.injEq] at hc ⊢
+      subst hc
+      exact lowerC_eq_of_not_letter a b hl h1
+    | succ j =>
+      simp only [List.getElem?_cons_succ] at hc ⊢
+      exact ie j c hc hl
+
+/-- **C09_key_differs_in_letter_case_only** — whatever value list `bindData` finds for a tag comes from
+    a key of the same length that agrees with the tag at every non-letter position: no other
+    separator (`x_is_admin` for `x-is-admin`), no dropped or added separator, no affix.
+    Together with `C09_key_must_equal_tag`: only such keys can make a field change. -/
+theorem C09_key_differs_in_letter_case_only (data : Data) (tag : List Char) (vals : List (List Char))
+    (h : lookup data tag = some vals) :
+    ∃ kv ∈ data, kv.2 = vals ∧ kv.1.length = tag.length
+      ∧ ∀ (i : Nat) (c : Char), tag[i]? = some c → isLetter c = false → kv.1[i]? = some c := by
+  obtain ⟨kv, hm, hf, hv⟩ := lookup_some_key data tag vals h
+  obtain ⟨hl, he⟩ := foldEq_exact_off_letters kv.1 tag hf
+  exact ⟨kv, hm, hv, hl, he⟩
+
+/-- a key that differs from the tag in one non-letter byte finds nothing -/
+theorem C09_separator_variant_misses (key tag : List Char) (vals : List (List Char)) (i : Nat) (c d : Char)
+    (ht : tag[i]? = some c) (hk : key[i]? = some d) (hcd : d ≠ c) (hl : isLetter c = false) :
+    lookup [(key, vals)] tag = none := by
+  cases h : lookup [(key, vals)] tag with
+  | none => rfl
+  | some w =>
+    obtain ⟨kv, hm, _, _, he⟩ := C09_key_differs_in_letter_case_only _ _ _ h
+    simp only [List.mem_singleton] at hm
+    subst hm
+    have := he i c ht hl
+    simp only at this
+    rw [hk] at this
+    exact absurd (Option.some.inj this) hcd
+
+/-! ### decoded bodies -/
+
+theorem mediaType_mXML : mediaType mXML = mXML := by decide +kernel
+theorem mediaType_mTextXML : mediaType mTextXML = mTextXML := by decide +kernel
+theorem mTextXML_ne : mTextXML ≠ mJSON ∧ mTextXML ≠ mXML ∧ mXML ≠ mJSON := by decide +kernel
+
+/-- **C09_xml_types_agree** — `BindBody` (and `Bind`) treat every Content-Type whose media type is
+    `text/xml` exactly like `application/xml`: the same decoder answer, the same status, for every
+    destination, value and request.  No XML media type has a decoder, or an error mapping, of its own. -/
+theorem C09_xml_types_agree (d : Dest) (v : DVal) (r : BindReq) (ct1 ct2 : List Char)
+    (h1 : mediaType ct1 = mXML ∨ mediaType ct1 = mTextXML) (h2 : mediaType ct2 = mXML ∨ mediaType ct2 = mTextXML) :
+    bindBody d v { r with ctype := ct1 } = bindBody d v { r with ctype := ct2 }
+    ∧ bind d v { r with ctype := ct1 } = bind d v { r with ctype := ct2 } := by
+  have hj : ∀ ct, (mediaType ct = mXML ∨ mediaType ct = mTextXML) → mediaType ct ≠ mJSON := by
+    intro ct h hh
+    cases h with
+    | inl h => rw [h] at hh; exact mTextXML_ne.2.2 hh
+    | inr h => rw [h] at hh; exact mTextXML_ne.1 hh
+  have key : ∀ ct, (mediaType ct = mXML ∨ mediaType ct = mTextXML) → ∀ w,
+      bindBody d w { r with ctype := ct } = if r.hasBody = false then (w, .ok) else (r.xml.1, if r.xml.2 then .ok else .bad) := by
+    intro ct h w
+    unfold bindBody
+    simp only [hj ct h, h, if_false, if_true]
+  have hb : ∀ w, bindBody d w { r with ctype := ct1 } = bindBody d w { r with ctype := ct2 } := by
+    intro w; rw [key ct1 h1 w, key ct2 h2 w]
+  refine ⟨hb v, ?_⟩
+  unfold bind
+  simp only [hb]
+
+/-- which decoder answer `BindBody` uses for a request, if any -/
+def decoderRejects (r : BindReq) : Prop :=
+  (mediaType r.ctype = mJSON ∧ r.json.2 = false)
+  ∨ ((mediaType r.ctype = mXML ∨ mediaType r.ctype = mTextXML) ∧ r.xml.2 = false)
+
+/-- **C09_decoded_malformed_400** — a non-empty body whose media type selects a decoder (JSON, or XML
+    under either of its media types, with any parameters / padding `mediaType` strips) and which that
+    decoder rejects: `BindBody` answers 400, and `Bind` never succeeds — whatever the destination, the
+    method, the path and query data -/
+theorem C09_decoded_malformed_400 (d : Dest) (v : DVal) (r : BindReq) (hb : r.hasBody = true)
+    (hr : decoderRejects r) : (bindBody d v r).2 = .bad ∧ (bind d v r).2 ≠ .ok := by
+  have key : ∀ w, (bindBody d w r).2 = .bad := by
+    intro w
+    unfold bindBody
+    simp only [hb, Bool.true_eq_false, if_false]
+    cases hr with
+    | inl h => simp [h.1, h.2]
+    | inr h =>
+      have hj : mediaType r.ctype ≠ mJSON := by
+        intro hh
+        cases h.1 with
+        | inl h' => rw [h'] at hh; exact mTextXML_ne.2.2 hh
+        | inr h' => rw [h'] at hh; exact mTextXML_ne.1 hh
+      simp [hj, h.1, h.2]
+  refine ⟨key v, ?_⟩
+  unfold bind
+  simp only
+  split
+  · rename_i e he
+    cases e <;> simp [statusOf]
+  · split
+    · split
+      · rename_i e he
+        cases e <;> simp [statusOf]
+      · rw [key]; decide
+    · rw [key]; decide
+
+-- round 8 --------------------------------------------------------------------------------------
+
+-- `X_Is_Admin: 1` does not reach a field tagged `x-is-admin`; `X-IS-ADMIN` does
+example : lookup [("X_Is_Admin".toList, [['1']])] "x-is-admin".toList = none := by decide +kernel
+example : lookup [("X-IS-ADMIN".toList, [['1']])] "x-is-admin".toList = some [['1']] := by decide +kernel
+example : lookup [("X_Is_Admin".toList, [['1']])] "x-is-admin".toList = none :=
+  C09_separator_variant_misses _ _ _ 1 '-' '_' (by decide +kernel) (by decide +kernel) (by decide) (by decide +kernel)
+-- conversely a tag spelled with `_` is found under its own spelling and not under the dashed one
+example : lookup [("X_Legacy_Id".toList, [['7']])] "x_legacy_id".toList = some [['7']]
+    ∧ lookup [("X-Legacy-Id".toList, [['7']])] "x_legacy_id".toList = none := by decide +kernel
+example : foldEq "userid".toList "user_id".toList = false ∧ foldEq "HTTP_X_ID".toList "x-id".toList = false := by decide +kernel
+-- the spellings of the XML media types all select the one XML branch
+example : mediaType "text/xml; charset=utf-8".toList = mTextXML ∧ mediaType " text/xml".toList = mTextXML
+    ∧ mediaType "application/xml ;q=1".toList = mXML := by decide +kernel
+-- a rejected XML document under text/xml: 400 through BindBody and through Bind (POST, path and query fine)
+example : decoderRejects { exReq ['P','O','S','T'] "text/xml; charset=utf-8".toList true with xml := (.struct exVs, false) } :=
+  Or.inr ⟨Or.inr (by decide +kernel), rfl⟩
+example : (bind (.struct exFs) (.struct exVs) { exReq ['P','O','S','T'] "text/xml".toList true with xml := (.struct exVs, false) }).2 = .bad := by
+  decide +kernel
 
 end C09
